@@ -164,7 +164,13 @@ class DimensionLink:
         if self._data_object_type == "DataArray":
             return lobj.get_attr("unit")
         elif self._data_object_type == "DataFrame":
-            return lobj.get_attr("units")[self.index]
+            units = lobj.get_attr("units")
+            if units is None:
+                # a frame without units: no column has one
+                return None
+            # a column without unit is kept as empty text (DataFrame.units)
+            unit = units[self.index]
+            return unit if unit != "" else None
         else:
             raise RuntimeError("Invalid DataObjectType attribute found in "
                                "DimensionLink")
@@ -178,8 +184,13 @@ class DimensionLink:
         if self._data_object_type == "DataArray":
             lobj.set_attr("unit", unit)
         elif self._data_object_type == "DataFrame":
-            units = list(lobj.get_attr("units"))
-            units[self.index] = unit
+            units = lobj.get_attr("units")
+            if units is None:
+                # a frame without units: the other columns stay without one
+                units = [""] * len(lobj.group["data"].dtype.names)
+            units = list(units)
+            # a column without unit is kept as empty text (DataFrame.units)
+            units[self.index] = unit if unit is not None else ""
             lobj.set_attr("units", units)
         else:
             raise RuntimeError("Invalid DataObjectType attribute found in "
